@@ -142,6 +142,40 @@ def gen_link_matrix(rng):
     return lines
 
 
+def time_laws_probe(v, tier, seed, name="time_laws_f64"):
+    """The simulator theorems assume `LawfulTime T`; they are proved for `Ticks` and *trusted* for `f64`.  This probe samples the
+    laws on IEEE doubles (Python floats are the same type, round-to-nearest): totality/transitivity of <=, a <= a + d for d >= 0,
+    monotonicity of + in each argument, lo <= lo + r*(hi-lo) <= hi for 0 <= r < 1 (also with the send time added), 1 <= ceil(2r)+1 <= 3.
+    It also counts how often the law R5 needs in addition, c + (t - c) = t, fails (finding D16).  Nothing here depends on /repo."""
+    import math
+    rng = random.Random(seed * 65537 + 5)
+    n = 100000 if tier == "quick" else 2000000
+    fails, d16 = {}, 0
+    def bad(k):
+        fails[k] = fails.get(k, 0) + 1
+    for _ in range(n):
+        a, b, c = (rng.choice([0.0, 0.5, 1.0, 2.5, rng.random() * 100, rng.random()]) for _ in range(3))
+        d = rng.choice([0.0, 0.5, rng.random() * 10])
+        r = rng.random() if rng.random() < 0.8 else math.nextafter(1.0, 0.0)
+        lo, hi = min(a, b), max(a, b)
+        if not (a <= b or b <= a): bad("le_total")
+        if a <= b and b <= c and not a <= c: bad("le_trans")
+        if not a <= a + d: bad("le_add")
+        if b <= c and not a + b <= a + c: bad("add_mono")
+        if a <= b and not a + c <= b + c: bad("add_mono_left")
+        x = lo + r * (hi - lo)
+        if not lo <= x <= hi: bad("scale_bounds")
+        if not c + lo <= c + x <= c + hi: bad("arrival_bounds")
+        if not 1 <= math.ceil(2 * r) + 1 <= 3: bad("copies_bounds")
+        if lo + (hi - lo) != hi: d16 += 1
+    v.coverage.setdefault(name, {}).update({"samples": n, "law_failures": fails, "add_sub_failures_D16": d16,
+        "rule": "random IEEE doubles from the ranges the scenarios use; LawfulTime laws must never fail; c+(t-c)=t is counted only"})
+    if fails:
+        v.violation(f"{name}.txt", f"# the time laws the simulator theorems assume fail on IEEE doubles: {fails}\n", no_input=True)
+        return 1
+    return 0
+
+
 def gen_crash_burst(rng):
     """several processes of one node send bursts of messages (and set timers), then the node is crashed while they are in flight;
     later it is recovered and the rest of the system continues"""
